@@ -15,7 +15,7 @@
                           inserted amplifier only touches fibres and ROADMs (none next to Fused / Transceiver)
      RunPadded pad r      a span that starts with a fibre and ends with a non-Raman fibre, without Raman fibre,
                           has loss >= pad *)
-From Verif Require Import Prelude Model.Chain Proofs.Chain.
+From Verif Require Import Prelude Model.Chain Proofs.Chain Proofs.ChainNames Proofs.ChainSplit.
 From Coq Require Import QArith Permutation Lia.
 Open Scope Z_scope.
 
@@ -37,6 +37,18 @@ Proof.
   intros c f r Hc H. destruct (split_fib_spec c f r Hc H) as [A B C D E]. repeat split; assumption.
 Qed.
 Print Assumptions C08_split_fibre.
+
+(* a span that calculate_new_length produced is never split again, and every fibre of a designed line has such a
+   length (so a second auto-design leaves the spans alone) *)
+Theorem C08_split_idempotent : forall L mn mx tg len n L',
+  0 < tg -> tg <= mx -> mn <= mx -> calc_len L mn mx tg = Ok (len, n) -> (L' == len)%Q ->
+  exists len', calc_len L' mn mx tg = Ok (len', 1).
+Proof. exact calc_len_idem. Qed.
+Print Assumptions C08_split_idempotent.
+Theorem C08_designed_spans_stable : forall c l l', c_min c <= c_max c -> no_auto (l_els l) -> design_line c l = Ok l' ->
+  Forall (fstable c) (l_els l').
+Proof. exact design_line_stable. Qed.
+Print Assumptions C08_designed_spans_stable.
 
 (* every fibre-fibre and ROADM-fibre junction has received an amplifier, none was inserted next to a Fused or a
    Transceiver — for every line, every configuration, both orders of the booster / preamp passes *)
@@ -141,6 +153,17 @@ Theorem C08_raman_in_fused_run_designs : exists l', no_auto (l_els (w_line [w_us
 Proof. exact pad_raman_designs. Qed.
 Print Assumptions C08_raman_in_fused_run_designs.
 
+(* syntactic form of names_unique: input uids distinct and "safe" (no "(", not starting with "Edfa", "booster" or
+   "preamp") -> the uids of the designed line are distinct.  The generated formats "<uid>_(k/n)",
+   "Edfa_booster_<roadm>_to_<uid>", "Edfa_preamp_<roadm>_from_<uid>", "Edfa_<uid>" are injective on such uids
+   (Proofs/ChainNames.v: base_ok_inj, split_name_k_inj, edfa_not_base, booster_not_base, preamp_not_base).
+   Per line; across lines the booster / preamp formats "<roadm>_to_<uid>" are not injective without a condition on
+   ROADM names, which the graph-level oracle of the check covers. *)
+Theorem C08_names_unique_syntactic : forall c l l', no_auto (l_els l) -> design_line c l = Ok l' ->
+  NoDup (names (l_els l)) -> Forall safe (names (l_els l)) -> NoDup (names (l_els l')).
+Proof. exact design_names_unique. Qed.
+Print Assumptions C08_names_unique_syntactic.
+
 (* design keeps the endpoint pair of every line (no hypothesis), hence the edges between ROADMs / transceivers and
    reachability over any sequence of lines are unchanged for a whole network *)
 Theorem C08_endpoints_preserved : forall c l l', design_line c l = Ok l' -> endpoints l' = endpoints l.
@@ -163,3 +186,5 @@ Proof. vm_compute. reflexivity. Qed.
 Example C08_ex_reach : exists ls', design_net w_cfg [ex_line; mkLine Roadm "B" 1 Roadm "C" true [Fib (w_fib "g" 60 [])]] = Ok ls' /\
   reach (edges ls') "A" "C" /\ ~ reach (edges ls') "C" "A".
 Proof. exact ex_reach. Qed.
+Example C08_ex_names_safe : NoDup (names (l_els ex_line)) /\ Forall safe (names (l_els ex_line)).
+Proof. exact ex_names_safe. Qed.
